@@ -58,6 +58,28 @@ CLAIMED = {
             'dataflow slot left. Sampling, not proof.',
             'Exceptions raised by attach itself make a run inconclusive (the statement speaks of the body); '
             'Source.status bookkeeping is judged only through the conservative backend output.'),
+    'C21': ('batchworld', 'DESIGN.md sec. 5 (C21), Appendix A',
+            'deterministic simulation: the simulator owns the environment-decided orders of Scheduler construction '
+            '(set iteration order of discovered paths, topological tie-breaks, PYTHONHASHSEED, lazy vs full parse); '
+            'repeated constructions of one generated project must agree, and agree with a reference closure',
+            'Decided by simulation: the graph (nodes, edges, is_ignored) does not depend on enumeration order, hash '
+            'seed, topological tie-break or full_parse, for generated multi-file projects (modules, free routines, '
+            'qualified/renamed/unqualified imports, type and variable imports, generic interfaces, recursion, externals, '
+            'file names differing only in case) and configs (seeds, disable/block/ignore plain and scoped, expand, '
+            'strict, enable_imports). Only sampled: equality with the reference closure computed from the generator\'s '
+            'model. Sampling, not proof.',
+            'Reference closure covers the documented sub-language of DESIGN Appendix A (no fnmatch patterns, no '
+            'type-bound procedures, no function references); behaviour outside it is not judged.'),
+    'C22': ('batchworld', 'DESIGN.md sec. 5 (C22)',
+            'deterministic simulation: seeded choice among valid topological orders and enumeration orders while a '
+            'recording probe transformation is processed under generated manifests; history oracle over the probe log',
+            'Seeded exploration of projects x configs x manifests (item filters, reverse, file-graph traversal, '
+            'processing of ignored items, SEQUENCE/PLAN strategy) under adversarial valid orders. Oracle over the '
+            'probe history: exactly-once per selected item and none other; callers before callees (reverse: after) for '
+            'every dependency path; role/mode as configured; targets sandwich; file-graph passes visit each containing '
+            'file once in an order consistent with cross-file edges; PLAN calls only plan_* hooks. Sampling, not proof.',
+            'InterfaceItem (documented as not a work item) is optional in the exactly-once check; targets entries of '
+            'renamed imports are not judged; recurse_to_* manifests are not generated.'),
 }
 
 NA_COMMON = ('pure function of (source text / IR, options, valuations): no scheduler, clock, fault, shared state '
